@@ -227,9 +227,21 @@ static void _vnacal_free_parameter(vnacal_parameter_t *vpmrp)
     }
     switch (vpmrp->vpmr_type) {
     case VNACAL_CORRELATED:
-	if (vpmrp->vpmr_sigma_frequency_vector !=
-		vpmrp->vpmr_other->vpmr_frequency_vector) {
-	    free((void *)vpmrp->vpmr_sigma_frequency_vector);
+	{
+	    /*
+	     * The sigma frequency vector may be borrowed from the vector
+	     * parameter at the end of the chain of other parameters.
+	     */
+	    vnacal_parameter_t *vpmrp_end = vpmrp->vpmr_other;
+
+	    while (vpmrp_end->vpmr_type == VNACAL_UNKNOWN ||
+		    vpmrp_end->vpmr_type == VNACAL_CORRELATED) {
+		vpmrp_end = vpmrp_end->vpmr_other;
+	    }
+	    if (vpmrp->vpmr_sigma_frequency_vector !=
+		    vpmrp_end->vpmr_frequency_vector) {
+		free((void *)vpmrp->vpmr_sigma_frequency_vector);
+	    }
 	}
 	free((void *)vpmrp->vpmr_sigma_vector);
 	free((void *)vpmrp->vpmr_sigma_spline);
